@@ -431,6 +431,48 @@ func (e *wireExec) construct(i int, ts TokSpec) {
 		w.json = nil
 	}
 	w.content = recOf(obj).Content()
+	// what the WRITER forms of the encoders put out unseals / decodes to the same token (lossless
+	// round trip through every encoder, not only the byte-slice ones)
+	for _, api := range []string{"ToSealedWriter", "ToDagCborWriter", "ToDagJsonWriter"} {
+		var buf bytes.Buffer
+		var werr error
+		reseed(e.t, e.seed, fmt.Sprint("seal", i))
+		if guard(o, api, func() {
+			switch api {
+			case "ToSealedWriter":
+				_, werr = obj.ToSealedWriter(&buf, ent.priv)
+			case "ToDagCborWriter":
+				werr = obj.ToDagCborWriter(&buf, ent.priv)
+			default:
+				werr = obj.ToDagJsonWriter(&buf, ent.priv)
+			}
+		}) || werr != nil {
+			continue
+		}
+		if api == "ToDagJsonWriter" && w.json == nil {
+			continue
+		}
+		dec := map[string]string{"ToSealedWriter": "typed.FromSealed", "ToDagCborWriter": "typed.FromDagCbor", "ToDagJsonWriter": "typed.FromDagJson"}[api]
+		ref := w.cbor
+		if api == "ToDagJsonWriter" {
+			ref = w.json
+		}
+		o.Eval("C07")
+		if bytes.Equal(buf.Bytes(), ref) {
+			continue // same bytes as the byte-slice encoder: the round-trip monitor decides those
+		}
+		var dtk token.Token
+		var derr error
+		if guard(o, dec, func() { dtk, _, derr = runDecoder(dec, ts.Kind, buf.Bytes()) }) {
+			continue
+		}
+		wattrs := map[string]string{"alg": alg, "type": ts.Kind, "api": api}
+		if derr != nil || isNilTok(dtk) {
+			o.Violate("C07", "decode-failed", fmt.Sprintf("what %s wrote (%d bytes, not the bytes of the byte-slice encoder) cannot be read back: %v", api, buf.Len(), derr), wattrs)
+		} else if got := recOf(dtk).Content(); got != w.content {
+			o.Violate("C07", "field-changed", fmt.Sprintf("what %s wrote reads back as another token: %s", api, diffRec(recOf(obj), recOf(dtk))), wattrs)
+		}
+	}
 	w.issuer = ent.id.String()
 	if e.ledger[w.issuer] == nil {
 		e.ledger[w.issuer] = map[string]bool{}
@@ -2020,7 +2062,15 @@ func (e *wireExec) byzStep(s *XStep, w *wireTok, env *envelope) {
 				a.MapSet("huge", cbMap(cbText("a"), cbInt(1), cbText("b"), cbMap(cbText("c"), cbArray(cbArray(big)))))
 			}
 		case "pol":
-			if s.Val/8%2 == 0 {
+			if s.Val >= 32 {
+				// ... or an integer of the policy that lives in a SELECTOR (an index, a slice bound),
+				// written in decimal: beyond 2^53-1, beyond int64, and so long that a careless
+				// accumulator wraps it back into range
+				n := []string{"9007199254740992", "-9007199254740992", "9223372036854775808", "18446744073709551621", "-18446744073709551618", "36893488147419103237", "55340232221128654855", "99999999999999999999999999", "18446744073709551616"}[(s.Val-32)%9]
+				sel := []string{".l[" + n + "]", ".[" + n + "]", ".l[" + n + ":]", ".l[1:" + n + "]", ".a.l[" + n + "]?", ".l[-" + strings.TrimPrefix(n, "-") + ":" + n + "]"}[(s.Val-32)/9%6]
+				pl.MapSet("pol", cbArray(cbArray(cbText("=="), cbText(sel), cbInt(1))))
+				big = cbText(sel)
+			} else if s.Val/8%2 == 0 {
 				pl.MapSet("pol", cbArray(cbArray(cbText("=="), cbText(".a"), big)))
 			} else {
 				pl.MapSet("pol", cbArray(cbArray(cbText("=="), cbText(".b"), cbInt(1)), cbArray(cbText("and"), cbArray(cbArray(cbText("any"), cbText(".l"), cbArray(cbText(">"), cbText("."), cbArray(cbInt(0), big)))))))
